@@ -549,7 +549,7 @@ int main(int argc, char **argv) {
       for (uint64_t sc = 0; sc < nst; sc++) {
         if (!vp::mine(caseno++)) continue;
         static uint64_t mine_count = 0;
-        if ((++mine_count & 0x3f) == 0 && vp::past_deadline()) {
+        if ((++mine_count & 0x3) == 0 && vp::past_deadline()) {
           vp::incomplete("n=" + std::to_string(n) + " cut at edges=" + std::to_string(edges));
           goto done;
         }
